@@ -59,7 +59,7 @@ def stableBytes (w : World) (v : Iov) (full : Bool) : String :=
   | none => "PANIC"
   | some n =>
     let bs := (v.slices.take n).flatMap w.sliceBytes
-    if full || bs.length ≤ 16 then toHex bs else digest bs
+    if (full && bs.length ≤ 4096) || bs.length ≤ 16 then toHex bs else digest bs
 
 def describe (s : St) (touched : Option Nat := none) : List String :=
   let w := s.w
